@@ -88,9 +88,13 @@ func typeFor(tseed int64) *tnode {
 type fault struct {
 	pos       *pnode // position in the base plan
 	validator vtag
-	source    string // config | default | absent | initdefaults | config-null
+	source    string // config | default | absent | initdefaults | config-null | config-empty ...
 	bad       interface{}
 	structLvl bool // cross-field Validate of a library struct
+	collLvl   bool // Validate of a library slice type: one element is made too big
+	// emptyColl: the slice / map (of the base plan) holding the faulty pre-filled
+	// element is in addition given as an EMPTY list / object by the configuration
+	emptyColl *pnode
 }
 
 func libValidate(k kind) bool { return k == kPort || k == kLevel || k == kDefLevel || k == kDefBad }
@@ -116,7 +120,7 @@ func (n *pnode) structTypeOrNil() *tnode {
 func enumerate(r *rand.Rand, top *pnode) []fault {
 	var out []fault
 	top.each(func(n *pnode) {
-		if n.parent == nil || n.f != nil && n.f.ignore {
+		if n.parent == nil || n.f != nil && n.f.ignore || underDropped(n) {
 			return
 		}
 		if k, ok := n.leafKind(); ok {
@@ -188,8 +192,146 @@ func enumerate(r *rand.Rand, top *pnode) []fault {
 				out = append(out, fault{pos: n, validator: v, source: "config-null"})
 			}
 		}
+		if n.f != nil && !n.isElem && (n.t.k == kSlice || n.t.k == kMap) {
+			// the field's own tag against the merged result: an empty list / object
+			// from the configuration over no, an empty or (replace) a dropped pre-fill
+			for _, v := range n.f.vals {
+				if v.name != "required" && v.name != "nonzero" {
+					continue
+				}
+				out = append(out, fault{pos: n, validator: v, source: "config-empty"},
+					fault{pos: n, validator: v, source: "config-empty+pre-empty"})
+				if n.t.k == kSlice && sliceMode(n.mode) == "replace" {
+					out = append(out, fault{pos: n, validator: v, source: "replaced-by-empty"})
+				}
+			}
+			if n.t.lib == "Small" {
+				v := vtag{name: "Validate"}
+				out = append(out, fault{pos: n, validator: v, source: "config", collLvl: true, bad: int64(99)},
+					fault{pos: n, validator: v, source: "default", collLvl: true, bad: int64(77)},
+					fault{pos: n, validator: v, source: "default", collLvl: true, bad: int64(51), emptyColl: n})
+			}
+		}
 	})
+	// an invalid pre-filled element / entry that survives the merge, with the
+	// collection present in the configuration as an empty list / object
+	for _, f := range out {
+		if f.source != "default" || f.emptyColl != nil || f.collLvl {
+			continue
+		}
+		for a := f.pos; a != nil; a = a.parent {
+			if !a.isElem {
+				continue
+			}
+			c := a.parent
+			if !a.inCfg && a.inPre && (c.t.k == kMap || c.t.k == kSlice && sliceMode(c.mode) != "replace") {
+				g := f
+				g.emptyColl = c
+				out = append(out, g)
+			}
+			break
+		}
+	}
 	return out
+}
+
+func underDropped(n *pnode) bool {
+	for a := n; a != nil; a = a.parent {
+		if a.dropped {
+			return true
+		}
+	}
+	return false
+}
+
+// stripCfg removes the configuration side below (and of) n; what only the
+// configuration gave disappears.
+func stripCfg(n *pnode) {
+	n.inCfg, n.cfgNull, n.viaVar = false, false, false
+	if _, leaf := n.leafKind(); leaf {
+		return
+	}
+	if n.structLike() {
+		if n.t.k != kStruct && !n.inPre {
+			n.kids = nil
+			if n.t.k == kIface {
+				n.sshape = ""
+			}
+			return
+		}
+		for _, k := range n.kids {
+			stripCfg(k)
+		}
+		return
+	}
+	keepPre(n)
+}
+
+// keepPre keeps the pre-filled elements / entries of a collection only.
+func keepPre(c *pnode) {
+	var kids []*pnode
+	for _, k := range c.kids {
+		if !k.inPre {
+			continue
+		}
+		stripCfg(k)
+		if c.t.k == kSlice {
+			k.dropped = false
+			k.seg = strconv.Itoa(len(kids))
+			k.rseg = k.seg
+		}
+		kids = append(kids, k)
+	}
+	c.kids = kids
+}
+
+// emptyConfig makes the configuration give the collection c as `[]` / `{}`.
+func emptyConfig(c *pnode) bool {
+	keepPre(c)
+	c.inCfg, c.cfgNull = true, false
+	return ensureCfg(c)
+}
+
+// injectColl edits a slice / map position as a whole.
+func injectColl(n *pnode, f fault) bool {
+	switch f.source {
+	case "config-empty":
+		n.kids = nil
+		n.inPre = false
+		n.inCfg, n.cfgNull = true, false
+		return ensureCfg(n)
+	case "config-empty+pre-empty":
+		n.kids = nil
+		n.inCfg, n.cfgNull = true, false
+		n.inPre = true // non-nil and empty
+		return ensureCfg(n) && ensurePre(n)
+	case "replaced-by-empty":
+		keepPre(n)
+		if len(n.kids) == 0 {
+			return false
+		}
+		for _, k := range n.kids {
+			k.dropped = true
+			k.seg, k.rseg = "~"+k.seg, "~"+k.rseg
+		}
+		n.inCfg, n.cfgNull = true, false
+		return ensureCfg(n)
+	}
+	// Small: one element too big
+	for _, k := range n.kids {
+		if k.dropped {
+			continue
+		}
+		if f.source == "config" && k.inCfg {
+			k.cfgVal, k.viaVar = f.bad, false
+			return true
+		}
+		if f.source == "default" && !k.inCfg && k.inPre {
+			k.preVal = f.bad
+			return true
+		}
+	}
+	return false
 }
 
 // reified: Unpack visits the struct-like node field by field (and runs its
@@ -235,6 +377,9 @@ func ensurePre(n *pnode) bool {
 func inject(r *rand.Rand, n *pnode, f fault, useVars bool) bool {
 	if f.structLvl {
 		return injectStruct(n, f)
+	}
+	if f.collLvl || strings.HasPrefix(f.source, "config-empty") || f.source == "replaced-by-empty" {
+		return injectColl(n, f)
 	}
 	switch f.source {
 	case "config":
@@ -391,10 +536,26 @@ func run(res *harness.R, p *pnode) (o outcome) {
 			o.newErr = err
 			return
 		}
-		o.err = c.Unpack(o.target.Interface(), unpackOpts...)
+		o.err = c.Unpack(o.target.Interface(), optionsFor(p)...)
 	})
 	res.Eval(2)
 	return
+}
+
+// optionsFor: PathSep + VarExp and the plan's global merge option.
+func optionsFor(top *pnode) []ucfg.Option {
+	opts := append([]ucfg.Option{}, unpackOpts...)
+	switch top.global {
+	case "append":
+		opts = append(opts, ucfg.AppendValues)
+	case "prepend":
+		opts = append(opts, ucfg.PrependValues)
+	case "replace":
+		opts = append(opts, ucfg.ReplaceValues)
+	case "replacearr":
+		opts = append(opts, ucfg.ReplaceArrValues)
+	}
+	return opts
 }
 
 func panicSig(where string) string {
@@ -485,6 +646,21 @@ func (check) Run(seed int64, tier string, idx int, verbose bool) harness.Result 
 			return
 		}
 		res.SetAdd("position_kind", kindNames[n.t.k]+"@"+n.shape)
+		if n.t.k == kSlice || n.t.k == kMap {
+			how := "inherited"
+			switch {
+			case n.f != nil && n.f.mode != "":
+				how = "tag:" + n.f.mode
+			case n.mode == "":
+				how = "none"
+			case n.mode == base.global:
+				how = "global:" + n.mode
+			}
+			res.SetAdd("collection_state", collState(n))
+			if n.t.k == kSlice {
+				res.SetAdd("slice_mode_from", how+"->"+sliceMode(n.mode))
+			}
+		}
 		if _, ok := n.leafKind(); !ok && !n.isElem {
 			for _, v := range n.vals() {
 				res.SetAdd("valid", v.name+":"+n.source()+":"+n.shape+"("+kindNames[n.t.k]+")")
@@ -504,9 +680,14 @@ func (check) Run(seed int64, tier string, idx int, verbose bool) harness.Result 
 	faults := enumerate(r, base)
 	positions = len(faults)
 
-	describe := func(o outcome) string {
-		return fmt.Sprintf("type %s; config %v; pre-filled %s", typeStr, o.cfg, o.preDesc)
+	optDesc := "PathSep+VarExp"
+	if base.global != "" {
+		optDesc += "+" + base.global
 	}
+	describe := func(o outcome) string {
+		return fmt.Sprintf("type %s; options %s; config %v; pre-filled %s", typeStr, optDesc, o.cfg, o.preDesc)
+	}
+	res.SetAdd("global_option", optDesc)
 
 	// ---- base: valid input
 	o := run(res, base)
@@ -552,7 +733,7 @@ func (check) Run(seed int64, tier string, idx int, verbose bool) harness.Result 
 	}
 	res.SetAdd("outcome", "base:accepted")
 	byPath := map[string]*pnode{}
-	base.each(func(n *pnode) { byPath[n.path] = n })
+	base.each(func(n *pnode) { byPath[n.rpath] = n })
 	for _, f := range walk(o.target) {
 		src := "unknown"
 		if n := byPath[f.path]; n != nil {
@@ -584,13 +765,17 @@ func (check) Run(seed int64, tier string, idx int, verbose bool) harness.Result 
 			shape = f.pos.sshape // how the struct value itself is held
 		}
 		fid := f.validator.name + ":" + f.source + ":" + shape
-		if !inject(r, n, f, useVars) {
+		if !inject(r, n, f, useVars) || f.emptyColl != nil && !emptyConfig(m[f.emptyColl]) {
 			res.Ev("variant_not_admitted_by_plan", 1)
 			continue
 		}
+		repath(variant)
 		source := f.source
 		if n.viaVar {
 			source = "varexp"
+		}
+		if f.emptyColl != nil {
+			source = "default+empty-config"
 		}
 		// the model must see exactly this fault
 		var fs []finding
@@ -600,7 +785,7 @@ func (check) Run(seed int64, tier string, idx int, verbose bool) harness.Result 
 		}
 		hit, other := false, false
 		for _, x := range fs {
-			if x.path != n.path {
+			if x.path != n.rpath {
 				other = true
 			} else if x.validator == f.validator.name {
 				hit = true
@@ -623,6 +808,9 @@ func (check) Run(seed int64, tier string, idx int, verbose bool) harness.Result 
 
 		o := run(res, variant)
 		what := fmt.Sprintf("fault %s at '%s' (bad value %s)", fid, n.path, show(f.bad))
+		if n.rpath != n.path {
+			what += fmt.Sprintf(" [position '%s' of the result]", n.rpath)
+		}
 		if verbose {
 			fmt.Printf("%s\n  config %v\n  pre-filled %s\n  err=%v panic=%v %s\n", what, o.cfg, o.preDesc, o.err, o.panicked, o.pv)
 		}
@@ -635,7 +823,7 @@ func (check) Run(seed int64, tier string, idx int, verbose bool) harness.Result 
 		case o.err == nil:
 			seen := false
 			for _, x := range walk(o.target) {
-				if x.path == n.path {
+				if x.path == n.rpath {
 					if seen {
 						continue
 					}
@@ -675,7 +863,8 @@ func (check) Run(seed int64, tier string, idx int, verbose bool) harness.Result 
 		default:
 			msg := o.err.Error()
 			accepted := []string{n.path}
-			if insideElement(n) || !(source == "config" || source == "varexp" || source == "config-null") {
+			fromCfg := strings.HasPrefix(source, "config") || source == "varexp" || source == "replaced-by-empty"
+			if insideElement(n) || !fromCfg {
 				segs := strings.Split(n.path, ".")
 				for i := len(segs) - 1; i >= 1; i-- {
 					accepted = append(accepted, strings.Join(segs[:i], "."))
